@@ -43,6 +43,11 @@ MUTANTS = [
   "                hunk.remove.content.push(line);\n                header.remove_count -= 1;\n\n                there_was_a_non_context_line = true;", ["C01.hunk_wf"], ["C11"]),
  ("parser", "src/libpatch/patch/unified/parser.rs", "        if count == 0 {\n            line as isize\n        } else {", "        if false {\n            line as isize\n        } else {", ["C01.start_lines"], ["C11"]),
  ("parser", "src/libpatch/patch/unified/parser.rs", "hunk.add.content.reserve(std::cmp::min(header.add_count, input.len()));", "hunk.add.content.reserve(header.add_count);", ["parse_hunk.body"], []),
+ ("pushrange", "src/rapidquilt/cmd.rs",
+  "        if applied_patch_filenames.len() > series_patches.len() {\n            return Err(format_err!(\"There are more patches in \\\".pc/applied-patches\\\" than in \\\"series\\\"!\"));\n        }\n", "",
+  ["push_range.body"], []),
+ ("pushrange", "src/rapidquilt/cmd.rs", "first_patch.saturating_add(n)", "first_patch + n", ["push_range.body"], []),
+ ("pushrange", "src/rapidquilt/cmd.rs", "if p1.filename != p2.filename {", "if p1.filename == p2.filename {", ["C17.refuse"], []),
 ]
 
 
